@@ -33,15 +33,74 @@ def hang_violation(ctx, prop, transcript, out):
     return True
 
 
+def frozen_kind(out):
+    """classify a frozen bubble from the goroutine dump behind the VERIF-FROZEN line: which lock is waited for (non-durably)"""
+    waiting = []
+    for g in out.split("\n\n"):
+        head = g.split("\n", 1)[0]
+        if "synctest bubble" in head and ("sync.Mutex.Lock" in head or "sync.RWMutex" in head):
+            frames = [l.rsplit("(", 1)[0] for l in g.split("\n")[1:] if l.startswith("github.com/Lumerin-protocol")]
+            waiting.append(frames[0] if frames else "?")
+    # the read lock is held by a loop that waits for the peer without a bound: a second goroutine wanting it is a second relay loop
+    if any("StratumConnection).Read" in w for w in waiting):
+        return "two-readers", waiting
+    # the destination-change lock and the write lock are held across operations that end by a deadline of their own (a pool
+    # answer awaited for RESPONSE_TIMEOUT, a write with its idle deadline): in real time the waiter gets the lock; the bubble
+    # cannot show it, because a goroutine waiting on a sync.Mutex keeps the virtual clock from advancing
+    if waiting and all(any(k in w for k in ("Proxy).replacedMeanwhile", "Proxy).ConnectDest", "Proxy).setDest", "Proxy).SetDest", "StratumConnection).Write")) for w in waiting):
+        return "dest-lock", waiting
+    return "other", waiting
+
+
+def run_resumable(ctx, prop, exe, test, transcript, n):
+    """run the harness; a case whose bubble freezes because a goroutine waits (non-durably, on a sync.Mutex) for the
+    destination-change lock while its holder waits for a pool answer cannot be continued in virtual time — in real time
+    the holder's deadline resolves it. Such a case is left out (and counted) and the run continues behind it; any other
+    frozen bubble is a violation."""
+    start, first, left_out = 0, True, []
+    while True:
+        env = {"VERIF_N": n, "VERIF_FLUSH": 1, "VERIF_FROM": start}
+        if not first:
+            env["VERIF_APPEND"] = 1
+        rc, out = L.run_harness(ctx, exe, test, env=env, timeout=1700)
+        first = False
+        if rc == 0:
+            break
+        m = re.search(r"VERIF-FROZEN case=(\d+)", out)
+        if not m:
+            if not hang_violation(ctx, prop, transcript, out) and not L.crash_violation(ctx, transcript, out, prop.lower()):
+                ctx.tie_failures.append("harness run failed (rc=%d): %s" % (rc, out[-400:]))
+            break
+        c = int(m.group(1))
+        kind, waiting = frozen_kind(out)
+        path = "%s/%s" % (ctx.out, transcript)
+        raw = open(path, errors="replace").read().split("\n")
+        st = max(i for i, l in enumerate(raw) if l.startswith("# case"))
+        ops = ["> " + l[len("# doing "):] for l in raw[st:] if l.startswith("# doing ")]
+        if kind == "dest-lock":
+            left_out.append(c)
+            # mark the case in the transcript so that neither the model comparison nor the monitor judges its tail
+            with open(path, "a") as f:
+                f.write("# frozen: virtual clock stopped by a wait for a lock held across a time-bounded operation; case not judged\n# case %d skipped-tail\n" % c)
+            ctx.note("%s case %d: bubble frozen by a wait for a lock whose holder is in a time-bounded operation (%s); left out" % (test, c, ", ".join(waiting)[:200]))
+        else:
+            what = ("the session never quiesced: two goroutines contend for the read lock of one connection (more than one relay loop)"
+                    if kind == "two-readers" else "the session never quiesced: a goroutine spins or contends for a lock (%s)" % ", ".join(waiting)[:160])
+            L.violation(ctx, prop.lower() + ":the-session-never-quiesced" + ("-two-readers" if kind == "two-readers" else ""), what,
+                        {"clause": what, "case": "# case %d" % c, "ops": ops, "waiting": waiting, "how_to_replay": "bin/check %s --replay <this file>" % ctx.pid})
+        start = c + 1
+        if start >= n or len(left_out) > 20:
+            break
+    ctx.coverage["frozen_histories_left_out"] = ctx.coverage.get("frozen_histories_left_out", 0) + len(left_out)
+    return left_out
+
+
 def run_life(ctx, prop, exe, n_random, n_regular):
     """returns (regular cases, random cases)"""
     # 1. the regular fragment against the model
-    rc, out = L.run_harness(ctx, exe, "TestVerifLifeRegular$", env={"VERIF_N": n_regular, "VERIF_FLUSH": 1}, timeout=900)
+    frozen_reg = run_resumable(ctx, prop, exe, "TestVerifLifeRegular$", "lifereg.impl.txt", n_regular)
     reg = []
-    if rc != 0:
-        if not hang_violation(ctx, prop, "lifereg.impl.txt", out) and not L.crash_violation(ctx, "lifereg.impl.txt", out, prop.lower()):
-            ctx.tie_failures.append("harness run failed (rc=%d): %s" % (rc, out[-400:]))
-    else:
+    if os.path.exists(ctx.out + "/lifereg.impl.txt"):
         impl = ctx.out + "/lifereg.impl.txt"
         model = impl + ".model.txt"
         rc2, err = L.drv("model", "life", impl, model)
@@ -51,6 +110,8 @@ def run_life(ctx, prop, exe, n_random, n_regular):
             reg = L.parse_cases(impl)
             done = set()
             for d in L.diff_cases(impl, model):
+                if any(d["header"].startswith("# case %d " % c) for c in frozen_reg) or "skipped-tail" in d["header"]:
+                    continue
                 op = L.last_op_before(d["lines"], d["first"])
                 canon = lambda l: re.sub(r"[0-9]+", "N", " ".join(l.split()[1:4])) if l.startswith("<") else "nothing"
                 sig = prop.lower() + ":" + re.sub(r"-+", "-", re.sub(r"[^A-Za-z]+", "-", "%s-impl-%s-model-%s" % (op.split()[1], canon(d["impl"]), canon(d["other"])))).strip("-")[:90]
@@ -62,12 +123,9 @@ def run_life(ctx, prop, exe, n_random, n_regular):
                 # the model's outputs are the specification of the regular fragment (one replacement or release, nothing left open)
                 L.violation(ctx, sig, what, {"clause": what, "case": d["header"], "ops": ops, "how_to_replay": "bin/check %s --replay <this file>" % ctx.pid})
     # 2. the random stream judged by the monitor
-    rc, out = L.run_harness(ctx, exe, "TestVerifLife$", env={"VERIF_N": n_random, "VERIF_FLUSH": 1}, timeout=900)
+    frozen_rnd = run_resumable(ctx, prop, exe, "TestVerifLife$", "life.impl.txt", n_random)
     rnd = []
     path = ctx.out + "/life.impl.txt"
-    if rc != 0:
-        if not hang_violation(ctx, prop, "life.impl.txt", out) and not L.crash_violation(ctx, "life.impl.txt", out, prop.lower()):
-            ctx.tie_failures.append("harness run failed (rc=%d): %s" % (rc, out[-400:]))
     if os.path.exists(path):
         rnd = L.parse_cases(path)
         bycase = dict(rnd)
@@ -75,6 +133,8 @@ def run_life(ctx, prop, exe, n_random, n_regular):
         for case, c in L.run_monitor(ctx, "life", "life.impl.txt"):
             body, _, op = c.partition(" @ ")
             if not body.startswith(prop + " "):
+                continue
+            if any(case.startswith("# case %d " % fc) for fc in frozen_rnd) or "skipped-tail" in case:
                 continue
             sig = sig_of(prop, body[len(prop) + 1:])
             if sig in seen:
@@ -137,6 +197,12 @@ def replay(ctx, path, prop):
     t = d + "/life.impl.txt"
     print(open(t).read() if os.path.exists(t) else out[-2000:])
     if rc != 0:
+        if "VERIF-FROZEN" in out:
+            kind, waiting = frozen_kind(out)
+            print("the bubble froze; goroutines waiting on a sync.Mutex: %s" % waiting)
+            if kind == "dest-lock":
+                print("REPLAY: not judged — the virtual clock is stopped by a wait for the destination-change lock whose holder waits for a pool answer; in real time the holder's deadline resolves it")
+                return 0
         print(out[-1500:])
         print("REPLAY: the harness did not finish (hang or crash)")
         return 1
